@@ -154,6 +154,8 @@ def list_alt_problems(field):
             continue
         pol, lst = nonempty_polarity(x.cond)
         if pol == 0:
+            if contains(x.cond, lambda t: t[0] == 'call' and t[1] == S('len')):
+                out.append('the preference tokens are written under %s, which is not a test for "the side has lists"' % show(x.cond)[:80])
             continue
         if (pol == 1) != a_tok:
             out.append('the preference tokens are written when %s is EMPTY and left out when it has entries (condition %s)' % (show(lst)[:40], show(x.cond)[:60]))
